@@ -7,6 +7,7 @@ import (
 	stded "crypto/ed25519"
 	"crypto/elliptic"
 	cryptorand "crypto/rand"
+	"crypto/sha512"
 	"encoding/hex"
 	"errors"
 	"fmt"
@@ -108,6 +109,9 @@ func execSigForks(c *ctx, in ev) []ev {
 	case "VerifyRS":
 		curve := kbCurves[gS(in, "curve")]
 		key := sfKey(c.seed, curve, "k")
+		if kd := gB(in, "d"); len(kd) > 0 { // a key made for this signature
+			key, _ = ecdsa.CreateKey(curve, kd)
+		}
 		d := gB(in, "digest")
 		r := new(big.Int).SetBytes(gB(in, "r"))
 		s := new(big.Int).SetBytes(gB(in, "s"))
@@ -117,13 +121,17 @@ func execSigForks(c *ctx, in ev) []ev {
 		if gBool(in, "sneg") {
 			s.Neg(s)
 		}
-		var fork, std bool
+		r0, s0, d0 := new(big.Int).Set(r), new(big.Int).Set(s), append([]byte{}, d...)
+		var fork, fork2, std bool
+		argsSame := false
 		p := guard(func() {
 			fork = ecdsa.Verify(&key.PublicKey, d, r, s)
-			std = stdecdsa.Verify(stdPub(&key.PublicKey), d, r, s)
+			argsSame = r.Cmp(r0) == 0 && s.Cmp(s0) == 0 && bytes.Equal(d, d0)
+			fork2 = ecdsa.Verify(&key.PublicKey, d, r, s) // the same call again, on the same argument objects
+			std = stdecdsa.Verify(stdPub(&key.PublicKey), d0, r0, s0)
 		})
-		return []ev{{"op": op, "curve": gS(in, "curve"), "digest": B(d), "r": in["r"], "s": in["s"], "rneg": gBool(in, "rneg"), "sneg": gBool(in, "sneg"),
-			"valid": gBool(in, "valid"), "fork": fork, "std": std, "panic": p}}
+		return []ev{{"op": op, "curve": gS(in, "curve"), "digest": B(d0), "r": in["r"], "s": in["s"], "rneg": gBool(in, "rneg"), "sneg": gBool(in, "sneg"),
+			"valid": gBool(in, "valid"), "fork": fork, "fork2": fork2, "args_same": argsSame, "std": std, "panic": p}}
 	case "VerifyASN1":
 		curve := kbCurves[gS(in, "curve")]
 		key := sfKey(c.seed, curve, "k")
@@ -249,6 +257,50 @@ func execSigForks(c *ctx, in ev) []ev {
 			std = stded.Verify(stded.PublicKey(A), msg, sig)
 		})
 		return []ev{{"op": op, "A": B(A), "sig": B(sig), "msglen": len(msg), "cls": in["cls"], "valid": gBool(in, "valid"), "fork": fork, "std": std, "panic": p}}
+	case "EdVerifyTorsion":
+		// A' = A + T for a small-order T; the signature is made by hand for the honest secret scalar against A'
+		seed, A, msg := gB(in, "seed"), gB(in, "A"), gB(in, "msg")
+		var fork, std bool
+		var sig []byte
+		p := guard(func() {
+			h := sha512.Sum512(seed)
+			ab := append([]byte{}, h[:32]...)
+			ab[0] &= 248
+			ab[31] &= 63
+			ab[31] |= 64
+			a := leToInt(ab)
+			hr := sha512.New()
+			hr.Write(h[32:])
+			hr.Write(msg)
+			rr := leToInt(hr.Sum(nil))
+			rr.Mod(rr, edL)
+			bp, _ := edDecode(mustHex("5866666666666666666666666666666666666666666666666666666666666666"))
+			R := edEncode(edScalarMult(rr, bp))
+			hk := sha512.New()
+			hk.Write(R)
+			hk.Write(A)
+			hk.Write(msg)
+			k := leToInt(hk.Sum(nil))
+			k.Mod(k, edL)
+			S := new(big.Int).Mul(k, a)
+			S.Add(S, rr).Mod(S, edL)
+			sig = append(append([]byte{}, R...), intToLE(S, 32)...)
+			fork = ed25519.Verify(ed25519.PublicKey(A), msg, sig)
+			std = stded.Verify(stded.PublicKey(A), msg, sig)
+		})
+		return []ev{{"op": "EdVerify", "A": B(A), "sig": B(sig), "msglen": len(msg), "cls": in["cls"], "valid": false, "fork": fork, "std": std, "panic": p}}
+	case "EdSeq":
+		// a history of calls made one after the other by one goroutine
+		out := []ev{}
+		for _, st := range gL(in, "steps") {
+			step := st.(map[string]any)
+			sub := ev{}
+			for k, v := range step {
+				sub[k] = v
+			}
+			out = append(out, execSigForks(c, sub)...)
+		}
+		return out
 	case "EdEntropy":
 		mk := func() *scriptReader {
 			return &scriptReader{avail: gI(in, "avail"), chunk: gI(in, "chunk"), errWithData: gBool(in, "err_with_data"), err: errOf(gS(in, "errkind"))}
@@ -348,6 +400,27 @@ func genSigForks(c *ctx, emit func(ev)) {
 						emit(ev{"op": "VerifyRS", "curve": cname, "digest": B(d), "r": B(new(big.Int).Abs(rv.v).Bytes()), "rneg": rv.v.Sign() < 0,
 							"s": B(new(big.Int).Abs(sv.v).Bytes()), "sneg": sv.v.Sign() < 0, "valid": rv.valid && sv.valid, "cls": rv.name + "," + sv.name})
 					}
+				}
+				// signatures with a tiny s, made by solving for the key: (r, s + N) is then below the field prime
+				for _, sv := range []int64{1, 2, 3} {
+					k := kbScalar(c.seed, curve, fmt.Sprintf("tiny-k-%d-%d", rep, sv))
+					kx, _ := curve.ScalarBaseMult(k.Bytes())
+					rt := new(big.Int).Mod(kx, N)
+					dg := randBytes(r, 20) // shorter than every group order: e is the digest as an integer
+					e0 := new(big.Int).SetBytes(dg)
+					rinv := new(big.Int).ModInverse(rt, N)
+					if rinv == nil {
+						continue
+					}
+					dk := new(big.Int).Mul(big.NewInt(sv), k)
+					dk.Sub(dk, e0).Mul(dk, rinv).Mod(dk, N)
+					if dk.Sign() == 0 {
+						continue
+					}
+					st := big.NewInt(sv)
+					emit(ev{"op": "VerifyRS", "curve": cname, "digest": B(dg), "d": B(dk.Bytes()), "r": B(rt.Bytes()), "rneg": false, "s": B(st.Bytes()), "sneg": false, "valid": true, "cls": "tiny-s"})
+					emit(ev{"op": "VerifyRS", "curve": cname, "digest": B(dg), "d": B(dk.Bytes()), "r": B(rt.Bytes()), "rneg": false, "s": B(add(st, N).Bytes()), "sneg": false, "valid": false, "cls": "tiny-s+N"})
+					emit(ev{"op": "VerifyRS", "curve": cname, "digest": B(dg), "d": B(dk.Bytes()), "r": B(add(rt, N).Bytes()), "rneg": false, "s": B(st.Bytes()), "sneg": false, "valid": false, "cls": "r+N,tiny-s"})
 				}
 				// the same signature against another digest
 				emit(ev{"op": "VerifyRS", "curve": cname, "digest": B(randBytes(r, 32)), "r": B(rr.Bytes()), "rneg": false, "s": B(ss.Bytes()), "sneg": false, "valid": false, "cls": "other-digest"})
@@ -511,10 +584,38 @@ func genSigForks(c *ctx, emit func(ev)) {
 				bp, _ := edDecode(mustHex("5866666666666666666666666666666666666666666666666666666666666666"))
 				for sv := 0; sv <= 40; sv++ {
 					Rs := edEncode(edScalarMult(big.NewInt(int64(sv)), bp))
-					for _, ah := range []string{edSmallOrder[0], "eeffffffffffffffffffffffffffffffffffffffffffffffffffffffffffff7f", "0100000000000000000000000000000000000000000000000000000000000080"} {
+					ahs := []string{edSmallOrder[0], "eeffffffffffffffffffffffffffffffffffffffffffffffffffffffffffff7f", "0100000000000000000000000000000000000000000000000000000000000080"}
+					if sv < 6 {
+						ahs = append(ahs, edSmallOrder[1:]...) // keys with a torsion component: [S]B = R + [k]A holds when the order of A divides k
+					}
+					for _, ah := range ahs {
 						for _, sval := range []*big.Int{big.NewInt(int64(sv)), new(big.Int).Add(L, big.NewInt(int64(sv))), new(big.Int).Add(new(big.Int).Lsh(L, 1), big.NewInt(int64(sv)))} {
 							emit(ev{"op": "EdVerify", "A": B(mustHex(ah)), "sig": B(append(append([]byte{}, Rs...), sEnc(sval)...)), "msg": B(msg),
 								"valid": false, "cls": fmt.Sprintf("smallS/%d", sv)})
+							if sv < 6 && sval.Cmp(L) < 0 { // more messages: k varies, the verdict depends on k mod the order of A
+								for mi := 0; mi < 12; mi++ {
+									emit(ev{"op": "EdVerify", "A": B(mustHex(ah)), "sig": B(append(append([]byte{}, Rs...), sEnc(sval)...)), "msg": B(randBytes(r, 1+mi)),
+										"valid": false, "cls": fmt.Sprintf("torsion/%d", sv)})
+								}
+							}
+						}
+					}
+				}
+			}
+			// an honest key plus a small-order point, with signatures made for the honest key: the verdict depends on k mod 8
+			{
+				hp, ok := edDecode(pub)
+				if ok {
+					for ti := 1; ti < len(edSmallOrder); ti++ {
+						tp, ok2 := edDecode(mustHex(edSmallOrder[ti]))
+						if !ok2 {
+							continue
+						}
+						ap := edEncode(edAdd(hp, tp))
+						for mi := 0; mi < c.tierInt(6, 24); mi++ {
+							m2 := randBytes(r, 3+mi)
+							// signature computed by hand for the honest secret scalar against the public key A' = A + T
+							emit(ev{"op": "EdVerifyTorsion", "seed": B(seed), "A": B(ap), "msg": B(m2), "cls": fmt.Sprintf("A+T%d", ti)})
 						}
 					}
 				}
@@ -533,6 +634,27 @@ func genSigForks(c *ctx, emit func(ev)) {
 				emit(ev{"op": "EdVerify", "A": B(flipBit(pub, i*8+r.Intn(8))), "sig": B(sig), "msg": B(msg), "valid": false, "cls": "keyflip"})
 			}
 			emit(ev{"op": "EdVerify", "A": B(pub), "sig": B(sig), "msg": B(append(append([]byte{}, msg...), 0)), "valid": false, "cls": "msg"})
+		}
+		// histories by one goroutine: a rejected non-canonical signature (S = L .. 2^253) must not influence later calls
+		for rep := 0; rep < c.tierInt(6, 40); rep++ {
+			seed := randBytes(r, 32)
+			priv := stded.NewKeyFromSeed(seed)
+			pub := []byte(priv.Public().(stded.PublicKey))
+			steps := []any{}
+			for k := 0; k < 6; k++ {
+				msg := randBytes(r, 10+k)
+				sig := stded.Sign(priv, msg)
+				bad := append(append([]byte{}, sig[:32]...), intToLE(new(big.Int).Add(L, big.NewInt(int64(k))), 32)...)
+				steps = append(steps,
+					ev{"op": "EdVerify", "A": B(pub), "sig": B(sig), "msg": B(msg), "valid": true, "cls": "seq/valid"},
+					ev{"op": "EdVerify", "A": B(pub), "sig": B(bad), "msg": B(msg), "valid": false, "cls": "seq/S=L+k"},
+					ev{"op": "EdVerify", "A": B(pub), "sig": B(sig), "msg": B(msg), "valid": true, "cls": "seq/valid-after-reject"},
+					ev{"op": "EdSign", "seed": B(seed), "msg": B(msg)},
+					ev{"op": "EdVerify", "A": B(randBytes(r, 32)), "sig": B(sig), "msg": B(msg), "valid": false, "cls": "seq/random-key"},
+					ev{"op": "EdKey", "seed": B(randBytes(r, 32))},
+					ev{"op": "EdSign", "seed": B(seed), "msg": B(randBytes(r, 70))})
+			}
+			emit(ev{"op": "EdSeq", "steps": steps})
 		}
 		for a := -1; a <= 34; a++ {
 			for _, chunk := range []int{0, 1, 7, 31} {
